@@ -8,10 +8,10 @@ import (
 )
 
 // Alphabet of characters that occur in vectors, plus hostile ones.
-var vecAlphabet = []rune("CVSS:3.01/AVNLPRUHIMEXFTWOQDacvsnlx245 \t-_.\x00é")
+var vecAlphabet = []rune("CVSS:3.01/AVNLPRUHIMEXFTWOQDacvsnlx245 \t\r\n\v\f-_.,;#()[]\"'\\\x00é\u00a0\u2003\ufeff")
 
 var unknownNames = []string{"ZZ", "X", "CVSS", "AVV", "Q", "av", "Av", "au", "AU", "mav", "e", "rl", "cdp", " AV", "AV ", "M", "MX"}
-var junkValues = []string{"Z", "0", "n", "l", "h", "x", "nd", "ND", "XX", " N", "N ", "NN", "-", "é"}
+var junkValues = []string{"Z", "0", "n", "l", "h", "x", "nd", "ND", "XX", " N", "N ", "NN", "-", "é", "\x80", "\xff", "\xc3", "\x7f", "\x00", "N\x00", "\u00a0", "Ｎ"}
 
 func tabOf(ver int) []*spec.Metric {
 	if ver == 2 {
@@ -142,7 +142,7 @@ func Mutated(t *rapid.T, ver int) (string, []string) {
 				labels = append(labels, "colon-edit")
 			}
 		case 8: // prefix edits
-			pf := rapid.SampledFrom([]string{"CVSS:3.2", "CVSS:2.0", "CVSS:4.0", "CVSS:3", "CVSS:", "cvss:3.1", "CVSS3.1", "CVSS:3.1", "CVSS:3.0", "CVSS:3.1:", " CVSS:3.1", "CVSS:3.10", "CVSS:1.0", "CVSS:3.1 "}).Draw(t, "prefix")
+			pf := rapid.SampledFrom([]string{"CVSS:3.2", "CVSS:2.0", "CVSS:4.0", "CVSS:3", "CVSS:", "cvss:3.1", "CVSS3.1", "CVSS:3.1", "CVSS:3.0", "CVSS:3.1:", " CVSS:3.1", "CVSS:3.10", "CVSS:1.0", "CVSS:3.1 ", "CVSS2#", "CVSS:2", "CVSS:03.1", "CVSS:3.01", "CVSS:3.1.0", "CVSS:+3.1", "Cvss:3.1", "CVSS:３.１", "\ufeffCVSS:3.1"}).Draw(t, "prefix")
 			switch rapid.IntRange(0, 2).Draw(t, "pfop") {
 			case 0: // replace (v3) or prepend (v2)
 				if ver == 3 && len(segs) > 0 {
@@ -182,12 +182,20 @@ func Mutated(t *rapid.T, ver int) (string, []string) {
 				segs[i] = strings.ToLower(segs[i])
 				labels = append(labels, "lower-case")
 			}
-		case 13: // surrounding whitespace
+		case 13: // surrounding whitespace / wrappers that lenient parsers tend to strip
 			if len(segs) > 0 {
-				if rapid.Bool().Draw(t, "lead") {
-					segs[0] = " " + segs[0]
-				} else {
-					segs[len(segs)-1] += rapid.SampledFrom([]string{" ", "\n", "\t"}).Draw(t, "ws")
+				switch rapid.IntRange(0, 3).Draw(t, "wrap") {
+				case 0:
+					segs[0] = rapid.SampledFrom([]string{" ", "\t", "\n", "\r\n", "\ufeff", "\u00a0", "\v", "\f", "("}).Draw(t, "lead") + segs[0]
+				case 1:
+					segs[len(segs)-1] += rapid.SampledFrom([]string{" ", "\n", "\t", "\r", "\r\n", "\u00a0", "\v", "\f", "\x00", ")", ";", ",", "."}).Draw(t, "trail")
+				case 2: // wrapped: parentheses, quotes, brackets
+					w := rapid.SampledFrom([]string{"()", "\"\"", "[]", "''", "<>", "  "}).Draw(t, "pair")
+					segs[0] = w[:1] + segs[0]
+					segs[len(segs)-1] += w[1:]
+				default: // whitespace inside a token
+					i := rapid.IntRange(0, len(segs)-1).Draw(t, "wsi")
+					segs[i] = strings.Replace(segs[i], ":", rapid.SampledFrom([]string{" :", ": ", ":\t", "\u00a0:"}).Draw(t, "innerws"), 1)
 				}
 				labels = append(labels, "whitespace")
 			}
@@ -209,7 +217,19 @@ func Mutated(t *rapid.T, ver int) (string, []string) {
 				i := rapid.IntRange(0, len(s)-2).Draw(t, "ci")
 				s[i], s[i+1] = s[i+1], s[i]
 			}
-			segs = strings.Split(string(s), "/")
+			js := string(s)
+			if rapid.IntRange(0, 3).Draw(t, "rawbyte") == 0 && len(js) > 0 { // a raw (possibly non-UTF-8) byte
+				b := []byte(js)
+				i := rapid.IntRange(0, len(b)-1).Draw(t, "bi")
+				nb := byte(rapid.IntRange(0x7f, 0xff).Draw(t, "byteval"))
+				if rapid.Bool().Draw(t, "byteins") {
+					b = append(b[:i], append([]byte{nb}, b[i:]...)...)
+				} else {
+					b[i] = nb
+				}
+				js = string(b)
+			}
+			segs = strings.Split(js, "/")
 			labels = append(labels, "char-edit")
 		}
 	}
@@ -427,7 +447,7 @@ func fullV2(t *rapid.T, level spec.Level) spec.Vec {
 func TokenVocabulary(ver int) []string {
 	tab := tabOf(ver)
 	nameSet := map[string]bool{"": true, "ZZ": true, "CVSS": true, "av": true, "Av": true, " AV": true}
-	valSet := map[string]bool{"": true, "X": true, "n": true, "x": true, "0": true, "ND": true, "nd": true, "Z": true, "3.1": true, "2.0": true}
+	valSet := map[string]bool{"": true, "X": true, "n": true, "x": true, "0": true, "ND": true, "nd": true, "Z": true, "3.1": true, "2.0": true, "\x80": true, "\xff": true, "é": true, " ": true}
 	for _, m := range tab {
 		nameSet[m.Name] = true
 		for _, c := range m.Codes {
